@@ -23,6 +23,22 @@ CLAIMED = {
             "PCR base/ext and PTS/DTS values drawn from the boundary-bit set and uniformly; written bytes compared with the ISO layout (reserved/marker bits 1), canary bytes after the field, round trip, invariance of decoding under every subset of non-value bits, agreement of gots.ExtractTime, pes.ExtractTime and the reference on arbitrary bytes, end to end through adaptation-field PCR/OPCR and PES headers.",
             "Trusted: ref.EncodePCR/EncodePTS/DecodePCR/DecodePTS (bit tables written from ISO 13818-1). The 4-bit PTS prefix is not asserted.",
             "DESIGN.md section 4 C04"),
+    "C06": ("property-based testing (rapid) with a reference PMT encoder, carrier and packetiser as the independent model; metamorphic over packetisations (same section, any split/pointer/stuffing/interleaving must decode identically); prefix-exhaustive check of the completion predicate; full enumeration of the table-header space",
+            "Reference-built PMT sections (descriptors incl. probes, up to the 1021-byte limit) x carriers (pointer_field, preceding sections, trailing stuffing) x packetisations (every payload size 1..184, other-PID packets interleaved) are decoded through NewPMT and ReadPMT and compared field by field with the model; PmtAccumulatorDoneFunc is evaluated on every prefix (small payloads) or on all packet boundaries + neighbourhoods of section boundaries; ExtractCRC, the PSI header accessors and the TableHeader codec (all 2^20 headers) are compared with the model.",
+            "Trusted: ref.PMT/Carrier/Packetise (written from ISO 13818-1 2.4.4), ref.CRC32MPEG2. Restrictions listed as assumptions in the evidence (inner section boundaries, legal packetisations for ReadPMT).",
+            "DESIGN.md section 4 C06"),
+    "C07": ("property-based testing (rapid) with a reference PAT encoder over three carriers + enumeration of every entry count",
+            "Reference-built PATs with 0..253 entries (network entry, PIDs > 255) as payload bytes, as a 188-byte packet (both stuffing styles) and in a stream after other-PID packets; NumPrograms, the exact program map, the single-program accessor, IsPMT classification (map values, neighbours, drawn PIDs, nil PAT) and the not-found error (incl. truncated last packet) are compared with the model. Every entry count is enumerated for every carrier.",
+            "Trusted: ref.PAT. pointer_field 0 and distinct program numbers only.",
+            "DESIGN.md section 4 C07"),
+    "C14": ("property-based testing (rapid): differential against a reference re-encoding of the filtered PMT, plus decode round trip and CRC residue under the independent reference CRC",
+            "For reference-built multi-packet PMTs and generated PID lists (subsets in any order, absent, duplicate, PAT/PMT PID, empty, all-absent) the output packets are compared byte-for-byte with input headers ++ pointer+filler ++ reference encoding of the selected streams ++ 0xFF padding, the packet count with the least k that holds it, the error contract incl. the missing PIDs named in the error, inputs unmodified; RemoveElementaryStreams on a decoded PMT is compared with the model.",
+            "Trusted: ref.PMT (Select/Section), ref.Packetise, ref.CRC32MPEG2. Ambiguous list mixes (only-absent + PAT/PMT PID) accept nil or a stream-less PMT.",
+            "DESIGN.md section 4 C14"),
+    "C20": ("exhaustive enumeration of the 256 stream types and of every decoder under all 256 tags + property-based testing (rapid) over well-formed descriptor bodies",
+            "All 256 stream_type codes are checked through LookupPmtStreamType, NewPmtElementaryStream, streams decoded from a reference-built PMT and the by-PID query against the statement's code lists (typed into the harness); each decoder is checked on generated well-formed bodies of its kind and for its neutral value under every other tag.",
+            "Trusted: the harness' transcription of the statement's lists and decoder definitions. Ranges as in the quantifier text (bitrate < 2^21, Dolby Vision level < 32).",
+            "DESIGN.md section 4 C20"),
     "C13": ("differential testing against an independent CRC-32/MPEG-2 reference: exhaustive for lengths 0-2 and single-bit strings, property-based (rapid) otherwise",
             "ComputeCRC is compared with a reference written from the definition (bitwise and table-driven twins, catalogue check value) on all strings of length <= 2, all single-bit strings up to 96 bytes + sampled lengths to 1024 (thorough: all to 1024), and random strings up to 4096 bytes; the appended-CRC residue is checked with both implementations. Residues of emitted sections are asserted in the C09/C14 oracles.",
             "Trusted: the reference CRC (self-checked at start-up against 0x0376E6E7 for '123456789').",
